@@ -2,10 +2,15 @@
    The staged search is model/Reuse.v (hand model, correspondence-checked on 160/390+ pairs with the
    candidate matrices computed as coded).  The soundness theorems hold for ARBITRARY candidate
    generators: only the control flow and the verification step matter.
-   PARTIAL: "an exact translation is always found" and the geometric reading of the verification
-   step (apply_affine maps the interpreted outline by the matrix) are decided by the judge. *)
+   "An exact translation is always found" is proved on the affine-friendly (relative) forms the
+   search compares: two forms that differ only in their initial moveto make the first candidate -
+   the translation between the starting points - verify for every tolerance >= 1e-9 (the mapped
+   coordinates are snapped to 0 within 1e-9), whatever the later stages would propose.
+   PARTIAL: that the friendly form of a translated shape differs from the original's only in the
+   moveto (it does in exact arithmetic, by C09's theorems; floats add noise far below any tolerance in
+   use) and the geometric reading of the verification step are decided by the judge. *)
 From Coq Require Import ZArith Reals Lra List Bool Ascii String.
-From Pico Require Import Num PyStr G_geom G_transform G_meta G_types Walk Reuse E1_affine E3_walk E6_reuse.
+From Pico Require Import Num PyStr G_geom G_transform G_meta G_types Walk Reuse E1_affine E3_walk E6_reuse E6_translation.
 Import ListNotations.
 
 Theorem C20_reported_transform_is_verified (cand2 cand3 : pathR -> pathR -> result (option Aff)) (p1 p2 : pathR) tol A :
@@ -28,6 +33,16 @@ Theorem C20_almost_equals_means_commandwise_close tol (p q : pathR) :
   path_almost_equals (N:=ROps) tol p q = true -> Forall2 (close_cmd tol) p q.
 Proof. exact (path_almost_equals_spec tol p q). Qed.
 
+Theorem C20_exact_translation_is_found (cand2 cand3 : pathR -> pathR -> result (option Aff)) (p1 p2 r : pathR) tol x1 y1 x2 y2 :
+  (eps9R <= tol)%R ->
+  friendlyR p1 = ("M"%char, [x1; y1]) :: r -> friendlyR p2 = ("M"%char, [x2; y2]) :: r -> Forall rel_wf r ->
+  exists A, affine_between RMath cand2 cand3 p1 p2 tol = Ok (Some A).
+Proof. exact (exact_translation_found cand2 cand3 p1 p2 r tol x1 y1 x2 y2). Qed.
+
+Example C20_translation_premise_met :
+  Forall rel_wf [("l"%char, [3; 0]); ("q"%char, [1; 2; 0; 3]); ("c"%char, [0; 1; -1; 2; -2; 2]); ("a"%char, [2; 1; 0; 0; 1; -1; -1]); ("z"%char, [])]%R.
+Proof. exact rel_wf_example. Qed.
+
 Definition C20_all := (C20_reported_transform_is_verified, C20_identical_shapes_give_identity,
-  C20_nothing_reported_beyond_tolerance, C20_almost_equals_means_commandwise_close).
+  C20_nothing_reported_beyond_tolerance, C20_almost_equals_means_commandwise_close, C20_exact_translation_is_found).
 Print Assumptions C20_all.
